@@ -19,19 +19,19 @@ CLAIMED = {
             "Quiescence (every goroutine blocked in two identical atomic dumps) stands for 'once writers stop and the reader has drained'; consumers that stop receiving are C09/C10's subject; more than 3 writers are not explored.",
             "DESIGN.md §4 C03"),
     "C04": ("online trace checker: every backpressured subscriber's events compared with the single writer's log (sequential model) after each write, at quiescent points; counting fake clock for change times",
-            "Runtime monitoring: histories of successful and failing Set/Add/Update/Delete calls (with and without WithWriteTime) are driven one call at a time; backpressured subscribers with every option combination are opened before every step; after every step count, order, id, kind, new/old value, change time, seed flags, seed order and seed change times of what each subscriber received are compared with the writer's log. Exhaustive for short histories, random for long ones.",
-            "Change times are decided with a counting fake clock (a reported time identifies the reading it came from): exact when a write time is given, otherwise within the readings taken during the call; the equivalence used is a true equivalence relation applied to read-masked values.",
+            "Runtime monitoring: histories of successful and failing Set/Add/Update/Delete calls (with and without WithWriteTime) are driven one call at a time; backpressured subscribers with every option combination are opened before every step; after every step count, order, id, kind, new/old value, change time, seed flags, seed order and seed change times of what each subscriber received are compared with the writer's log. Exhaustive for short histories, random for long ones; equivalences configured: none, an equivalence relation, and a non-transitive tolerance (judged against the value each subscriber holds).",
+            "Change times are decided with a counting fake clock (a reported time identifies the reading it came from): exact when a write time is given, otherwise within the readings taken during the call; equivalences are applied to read-masked values; for the tolerance the expectation is per subscriber and per id (value last sent, or the previous stored value before anything was sent).",
             "DESIGN.md §4 C04"),
     "C06": ("reference-model monitor: independent projection oracle + shadow copies of stored/passed messages and masks, corrupted masks under recover / crash isolation",
-            "Runtime monitoring: nil, empty and every mask of <= 3 paths from a pool (nested, through repeated messages, parent+child, duplicates) x 8 stored messages, random masks, and systematically corrupted masks (unknown segment, continuation through scalar / map / repeated scalar, empty segment) are run through ResponseFilter.Validate/Filter/FilterClone, Value.Get/Pull, Collection.Get/List/Pull/PullID; every returned message is compared with an independent projection, the stored and passed-in messages and the mask are shadow-copied and re-compared, validation must report corrupted masks invalid and no read may panic (Pull cases behind crash isolation).",
-            "A result with or without empty shells of unselected parent messages is accepted; unknown fields kept by a masked read are counted, not judged.",
+            "Runtime monitoring: nil, empty and every mask of <= 3 paths from a pool (nested, through repeated messages, parent+child, duplicates) x 8 stored messages, random masks, and systematically corrupted masks (unknown segment, continuation through scalar / map / repeated scalar, empty segment) are run through ResponseFilter.Validate/Filter/FilterClone, Value.Get/Pull, Collection.Get/List/Pull/PullID; every returned message is compared with an independent projection, the stored and passed-in messages and the mask are shadow-copied and re-compared, validation must report corrupted masks invalid and no read may panic (Pull cases behind crash isolation). Trait messages: several subscribers with different masks at once, and masked reads (nested paths, opened masked Pull streams) through every reading RPC of every trait model server, after which the unmasked reads must return what they returned before.",
+            "A result with or without empty shells of unselected parent messages is accepted; unknown fields kept by a masked read are counted, not judged; at trait-server level only the never-mutates clause is judged (agreement of the masked response with the reference projection is counted).",
             "DESIGN.md §4 C06"),
     "C07": ("shadow-copy monitor: every message crossing an API boundary is deep-copied when it crosses and re-compared after every later operation; inputs are scribbled after each write",
-            "Runtime monitoring: random operation sequences on Value/Collection (with 0-2 open subscriptions whose seeds and events are retained), on every trait model server reachable through its Register method (handlers called directly so the real pointers flow, ids harvested from earlier responses) and on model-level methods without an RPC (parent, metadata model and collection, enter/leave, electric). After every operation all retained messages are compared with their copies; after every write the caller's message is overwritten and the store (and everything retained) must be unaffected.",
+            "Runtime monitoring: random operation sequences on Value/Collection (with 0-2 open subscriptions whose seeds and events are retained), on every trait model server reachable through its Register method (handlers called directly so the real pointers flow, ids harvested from earlier responses, random valid read and update masks including nested paths) and on model-level methods without an RPC (parent, metadata model and collection, enter/leave, electric). After every operation all retained messages are compared with their copies; after every write the caller's message is overwritten and the store (and everything retained) must be unaffected.",
             "The harness never mutates messages it obtained from reads; constructor initial values are cloned by the harness; a result that merely aliases the caller's own input is reported under its own key class.",
             "DESIGN.md §4 C07"),
     "C08": ("online reference-model monitor: decision table per event and fold(filtered stream) vs List(WithInclude) at quiescent points, predicates enumerated as truth tables",
-            "Runtime monitoring: all 64 predicates over (id, value) as truth tables x exhaustive short write histories x backpressure on/off are run on the real collection; after every write the drained events are judged against the four-row inclusion decision table and the fold of the stream against List with the same predicate; lossy merges are enumerated by parking the consumer at quiescent points. The booking server's ListBookings/PullBookings are checked the same way.",
+            "Runtime monitoring: all 64 predicates over (id, value) as truth tables x exhaustive short write histories x backpressure on/off are run on the real collection; after every write the drained events are judged against the four-row inclusion decision table and the fold of the stream against List with the same predicate; lossy merges are enumerated by parking the consumer at quiescent points. The booking server's ListBookings/PullBookings are checked the same way; further phases: several subscribers with different predicates at once, and collections configured with an equivalence (judged modulo it).",
             "An absent item is never a member of the filtered collection whatever the predicate answers for nil; change times and old values of merged lossy events are not asserted.",
             "DESIGN.md §4 C08"),
     "C05": ("reference-model monitor: independent leaf-path masked-merge oracle and frame comparison over exhaustive small mask tuples and random tuples",
